@@ -2378,7 +2378,7 @@ impl taffy::LayoutPartialTree for VTree {
                         |_val, _basis| 0.0,
                         |known_dimensions, available_space| match &ctx {
                             Some(c) => measure_ctx(c, known_dimensions, available_space),
-                            None => Size::ZERO,
+                            None => noctx_size(),
                         },
                     )
                 }
@@ -2697,6 +2697,10 @@ pub fn run_c17(cfg: &Cfg, out: &mut Out) -> String {
         }
         let mut r = Rng::for_case(cfg.seed, idx);
         out.begin_case(idx, "tree");
+        // one case in four: the measure function also sizes the childless nodes that have no context
+        let sized_noctx = idx % 4 == 3;
+        set_noctx_size(if sized_noctx { Size { width: 11.0, height: 6.0 } } else { Size::ZERO });
+        out.count(if sized_noctx { "measure:sizes-context-less-leaves" } else { "measure:context-less-leaves-are-0x0" });
         let mut g = GenCfg::all();
         let small = idx % 5 < 3;
         if small {
